@@ -1,11 +1,11 @@
 #!/bin/bash
 # mx.sh <seed names...>: run the seed matrix in an isolated copy (/work/mx) so /repo and /verif stay usable meanwhile.
 set -euo pipefail
-mkdir -p /work/mx
-if [ ! -d /work/mx/repo ]; then git -C /repo worktree add --detach /work/mx/repo HEAD >/dev/null 2>&1; fi
-git -C /work/mx/repo checkout -q --detach "$(git -C /repo rev-parse HEAD)"
-rsync -a --delete --exclude .git --exclude build/runs --exclude build/cases --exclude build/logs --exclude build/.harness.stamp /verif/ /work/mx/verif/
-export VERIF_REPO=/work/mx/repo GOFLAGS=-mod=mod GOPROXY=off GOSUMDB=off GOTOOLCHAIN=local
-cd /work/mx/verif && python3 corr/seed_matrix.py "$@"
-for n in "$@"; do cp /work/mx/verif/seeded/$n/meta.json /verif/seeded/$n/meta.json; done
+MXW="${MXW:-/work/mx}"; mkdir -p $MXW
+if [ ! -d $MXW/repo ]; then git -C /repo worktree add --detach $MXW/repo HEAD >/dev/null 2>&1; fi
+git -C $MXW/repo checkout -q --detach "$(git -C /repo rev-parse HEAD)"
+rsync -a --delete --exclude .git --exclude build/runs --exclude build/cases --exclude build/logs --exclude build/.harness.stamp /verif/ $MXW/verif/
+export VERIF_REPO=$MXW/repo GOFLAGS=-mod=mod GOPROXY=off GOSUMDB=off GOTOOLCHAIN=local
+cd $MXW/verif && python3 corr/seed_matrix.py "$@"
+for n in "$@"; do cp $MXW/verif/seeded/$n/meta.json /verif/seeded/$n/meta.json; done
 echo MXDONE
